@@ -6,11 +6,11 @@ import FixModel.Generated.Facts
 
 * `C13_generated`: the inventory of blocking operations regenerated from /repo on this run (every
   channel send / receive, `select` with its arms and `default`, `Wait`, network read / write /
-  accept in the root, session and utils packages) equals the inventory the blocking structures
+  accept in the root, session and utils packages; function names left out, non-blocking selects left out) equals the inventory the blocking structures
   `ConnSys.acceptor` / `ConnSys.initiator` were written against — a bare send, a dropped
   `ctx.Done()` arm, a new blocking call changes the left-hand side and breaks this obligation.
 * `Props/C13Sys.lean`: `C13_acceptor`, `C13_initiator_handler_stopped`, `C13_initiator_partial`,
   `C13_initiator_finding_witness`, `C13_send_returns_acceptor`.
 -/
 
-theorem C13_generated : Generated.blocks = ConnSys.expectedBlocks := by decide
+theorem C13_generated : Generated.blockKinds = ConnSys.expectedBlockKinds := by decide
